@@ -190,6 +190,7 @@ macro_rules! c04_step {
         #[kani::stub(crate::vm::VM::prepare_globals_for_function, stub_prepare_globals)]
         #[kani::stub(crate::vm::VM::sync_current_function_globals, stub_sync_globals)]
         #[kani::stub(crate::vm::VM::print_value, stub_print_value)]
+        #[kani::stub(crate::vm::VM::verify_function_value, stub_verify_value)]
         fn $name() {
             let (mut vm, _pre) = c04_state($pool, $wok);
             let mut out = None;
